@@ -10,6 +10,7 @@ package main
 import (
 	"encoding/json"
 	"fmt"
+	"reflect"
 	"sort"
 	"strings"
 	. "vh/kit"
@@ -261,6 +262,7 @@ type c09Obs struct {
 	New    string   `json:"new_verifier"`
 	Levels []string `json:"levels"`
 	Panic  string   `json:"panic,omitempty"`
+	Frame  string   `json:"frame,omitempty"` // caller-owned object the library changed
 }
 
 func guarded(f func() error) (cls string, panicked string) {
@@ -325,8 +327,69 @@ func emptyNotNilBlob(doc *trustpolicy.BlobDocument) {
 	}
 }
 
+// ---------- frame check: the documents handed in are the caller's ----------
+
+func cloneStrs(xs []string) []string {
+	if xs == nil {
+		return nil
+	}
+	return append([]string{}, xs...)
+}
+
+func cloneSV(sv trustpolicy.SignatureVerification) trustpolicy.SignatureVerification {
+	c := sv
+	if sv.Override != nil {
+		c.Override = make(map[trustpolicy.ValidationType]trustpolicy.ValidationAction, len(sv.Override))
+		for k, v := range sv.Override {
+			c.Override[k] = v
+		}
+	}
+	return c
+}
+
+func snapOCI(doc *trustpolicy.OCIDocument) *trustpolicy.OCIDocument {
+	if doc == nil {
+		return nil
+	}
+	c := &trustpolicy.OCIDocument{Version: doc.Version}
+	if doc.TrustPolicies != nil {
+		c.TrustPolicies = make([]trustpolicy.OCITrustPolicy, len(doc.TrustPolicies))
+		for i, t := range doc.TrustPolicies {
+			c.TrustPolicies[i] = trustpolicy.OCITrustPolicy{Name: t.Name, SignatureVerification: cloneSV(t.SignatureVerification),
+				TrustStores: cloneStrs(t.TrustStores), TrustedIdentities: cloneStrs(t.TrustedIdentities), RegistryScopes: cloneStrs(t.RegistryScopes)}
+		}
+	}
+	return c
+}
+
+func snapBlob(doc *trustpolicy.BlobDocument) *trustpolicy.BlobDocument {
+	if doc == nil {
+		return nil
+	}
+	c := &trustpolicy.BlobDocument{Version: doc.Version}
+	if doc.TrustPolicies != nil {
+		c.TrustPolicies = make([]trustpolicy.BlobTrustPolicy, len(doc.TrustPolicies))
+		for i, t := range doc.TrustPolicies {
+			c.TrustPolicies[i] = trustpolicy.BlobTrustPolicy{Name: t.Name, SignatureVerification: cloneSV(t.SignatureVerification),
+				TrustStores: cloneStrs(t.TrustStores), TrustedIdentities: cloneStrs(t.TrustedIdentities), GlobalPolicy: t.GlobalPolicy}
+		}
+	}
+	return c
+}
+
+// history family: when set, the struct built by the previous step (same
+// content) is handed in again instead of a fresh equal one
+var reuseInst bool
+
 func observe(kind string, d, other *hDoc, jsonRng *Rng) (c09Obs, string, []byte) {
 	var o c09Obs
+	frame := func(what string, same bool) {
+		if !same && o.Frame == "" {
+			o.Frame = what
+		}
+	}
+	var ociArg *trustpolicy.OCIDocument
+	var blobArg *trustpolicy.BlobDocument
 	en := jsonRng.Chance(1, 3) // empty instead of nil on the struct route
 	var lv []string
 	note := func(p string) {
@@ -342,17 +405,25 @@ func observe(kind string, d, other *hDoc, jsonRng *Rng) (c09Obs, string, []byte)
 			emptyNotNilOCI(doc)
 		}
 		if useInst && doc != nil {
-			*instOCI = *doc
+			if !reuseInst {
+				*instOCI = *doc
+			}
 			doc = instOCI
 		}
+		snap := snapOCI(doc)
 		o.Val, p = guarded(func() error { return doc.Validate() })
 		note(p)
+		frame("OCIDocument after Validate", reflect.DeepEqual(snap, doc))
 		if o.Val == "EOk" {
 			for i := range doc.TrustPolicies {
 				t, s := levelTerm(&doc.TrustPolicies[i].SignatureVerification)
 				lv = append(lv, t)
 				o.Levels = append(o.Levels, s)
 			}
+			frame("OCIDocument after GetVerificationLevel", reflect.DeepEqual(snap, doc))
+		}
+		if useInst {
+			ociArg = doc
 		}
 		var jd trustpolicy.OCIDocument
 		if err := json.Unmarshal(text, &jd); err != nil {
@@ -367,17 +438,25 @@ func observe(kind string, d, other *hDoc, jsonRng *Rng) (c09Obs, string, []byte)
 			emptyNotNilBlob(doc)
 		}
 		if useInst && doc != nil {
-			*instBlob = *doc
+			if !reuseInst {
+				*instBlob = *doc
+			}
 			doc = instBlob
 		}
+		snap := snapBlob(doc)
 		o.Val, p = guarded(func() error { return doc.Validate() })
 		note(p)
+		frame("BlobDocument after Validate", reflect.DeepEqual(snap, doc))
 		if o.Val == "EOk" {
 			for i := range doc.TrustPolicies {
 				t, s := levelTerm(&doc.TrustPolicies[i].SignatureVerification)
 				lv = append(lv, t)
 				o.Levels = append(o.Levels, s)
 			}
+			frame("BlobDocument after GetVerificationLevel", reflect.DeepEqual(snap, doc))
+		}
+		if useInst {
+			blobArg = doc
 		}
 		var jd trustpolicy.BlobDocument
 		if err := json.Unmarshal(text, &jd); err != nil {
@@ -387,18 +466,28 @@ func observe(kind string, d, other *hDoc, jsonRng *Rng) (c09Obs, string, []byte)
 			note(p)
 		}
 	}
-	// construction of a verifier (fresh structs)
+	// construction of a verifier (fresh structs; in the history family the
+	// instance just validated)
 	opts := verifier.VerifierOptions{}
 	if kind == "oci" {
 		opts.OCITrustPolicy, opts.BlobTrustPolicy = toOCI(d), toBlob(other)
 	} else {
 		opts.OCITrustPolicy, opts.BlobTrustPolicy = toOCI(other), toBlob(d)
 	}
+	if ociArg != nil {
+		opts.OCITrustPolicy = ociArg
+	}
+	if blobArg != nil {
+		opts.BlobTrustPolicy = blobArg
+	}
+	so, sb := snapOCI(opts.OCITrustPolicy), snapBlob(opts.BlobTrustPolicy)
 	o.New, p = guarded(func() error {
 		_, err := verifier.NewVerifierWithOptions(NewMockStore(), opts)
 		return err
 	})
 	note(p)
+	frame("OCIDocument after NewVerifierWithOptions", reflect.DeepEqual(so, opts.OCITrustPolicy))
+	frame("BlobDocument after NewVerifierWithOptions", reflect.DeepEqual(sb, opts.BlobTrustPolicy))
 	return o, CApp("mk_obs", o.Val, o.JSON, o.New, CList(lv)), text
 }
 
@@ -1487,7 +1576,7 @@ func runC09(a *Args) error {
 	rng := NewRng(a.Seed)
 	prelude := "From NV Require Import Base C09_Model.\nOpen Scope string_scope.\n"
 	w := NewCaseWriter(a, "C09", prelude, "case", "run")
-	w.Rule = "documents of both kinds drawn from a grammar of valid documents (1-3 statements; levels, legal overrides, verifyTimestamp, type:name stores, wildcard / x509.subject / foreign-prefix identities with varied DN spelling (S alias, spaces, ';', backslash and hex escapes), unique scopes, at most one non-skip global statement). Streams: (1) single-edit, systematic: 39 rule-violating and 10 benign operators x both kinds, three statements with the rule violated in the first / middle / last one, the odd element at the front / middle / end of its list, every item of the operator's pool, all ordered pairs for duplicates, narrower/broader/unrelated DN in every order; (2) history: ONE document instance per kind validated repeatedly while edited in place (valid, broken, repaired); (3) grammar with 0, 1 or 2 random edits; (4) randomly assembled documents; (5) fixed regression documents (F1, F11, spec examples, nil). Each document is validated as a Go struct (nil or empty slices/maps at random), validated after decoding JSON text written with literal member names (optional members omitted / empty / null at random, duplicate members sometimes), handed to NewVerifierWithOptions (sometimes together with a document of the other kind), and for accepted documents GetVerificationLevel of every statement is recorded. non-trivial = at most two edits, or random stream with at most two bad picks; distinct = distinct (kind, document, other document)"
+	w.Rule = "documents of both kinds drawn from a grammar of valid documents (1-3 statements; levels, legal overrides, verifyTimestamp, type:name stores, wildcard / x509.subject / foreign-prefix identities with varied DN spelling (S alias, spaces, ';', backslash and hex escapes), unique scopes, at most one non-skip global statement). Streams: (1) single-edit, systematic: 39 rule-violating and 10 benign operators x both kinds, three statements with the rule violated in the first / middle / last one, the odd element at the front / middle / end of its list, every item of the operator's pool, all ordered pairs for duplicates, narrower/broader/unrelated DN in every order; (2) history: ONE document instance per kind validated repeatedly while edited in place (valid, broken, repaired), in half of the histories the very same struct handed to two consecutive steps and to NewVerifierWithOptions; (3) grammar with 0, 1 or 2 random edits; (4) randomly assembled documents; (5) fixed regression documents (F1, F11, spec examples, nil). Each document is validated as a Go struct (nil or empty slices/maps at random), validated after decoding JSON text written with literal member names (optional members omitted / empty / null at random, duplicate members sometimes), handed to NewVerifierWithOptions (sometimes together with a document of the other kind), and for accepted documents GetVerificationLevel of every statement is recorded. Frame check on every case: the documents handed to Validate, GetVerificationLevel and NewVerifierWithOptions are deep-snapshotted before and compared after (a change is an implementation violation). non-trivial = at most two edits, or random stream with at most two bad picks; distinct = distinct (kind, document, other document)"
 	w.Assumptions = []string{
 		"override maps have unique keys (Go map); identity strings are ASCII (limit of the byte-level model of go-ldap ParseDN, C04_DN); all strings are valid UTF-8 (JSON route)",
 		"error classes are recognised from stable phrases of the error texts; the four override-entry errors of GetVerificationLevel are one class (Go map iteration order)",
@@ -1521,6 +1610,9 @@ func runC09(a *Args) error {
 		w.Add(my, term, c, string(kd), nontrivial)
 		if obs.Panic != "" {
 			w.ImplViolation(my, "panic: "+obs.Panic, c, "panic")
+		}
+		if obs.Frame != "" {
+			w.ImplViolation(my, "library mutated caller-owned "+obs.Frame, c, "frame")
 		}
 		w.Count("kind", kind)
 		w.Count("stream", stream)
@@ -1611,10 +1703,21 @@ func runC09(a *Args) error {
 		useInst = true
 		for h := 0; h < hist; h++ {
 			good := genValid(kind, rng)
+			same := h%2 == 0 // hand the SAME struct (not an equal fresh one) to the next step
 			emit(kind, "history", []string{"valid"}, good.clone(), nil, true)
+			if same {
+				reuseInst = true
+				emit(kind, "history", []string{"valid-same-object"}, good.clone(), nil, true)
+				reuseInst = false
+			}
 			bad := good.clone()
 			nm := apply(kind, bad, applicable(kind, edits))
 			emit(kind, "history", []string{nm}, bad, nil, true)
+			if same {
+				reuseInst = true
+				emit(kind, "history", []string{nm, "same-object"}, bad.clone(), nil, true)
+				reuseInst = false
+			}
 			emit(kind, "history", []string{"repaired"}, good.clone(), nil, true)
 		}
 		useInst = false
